@@ -1,5 +1,6 @@
 //! Kani harnesses over /repo/deduplication (properties C01, C02, C03, C04, C14, C15).
 #![allow(unused)]
+#![cfg_attr(kani, feature(allocator_api))]
 #[cfg(kani)]
 pub mod stubs;
 #[cfg(kani)]
